@@ -1,6 +1,7 @@
 import CnfgenModel.Driver.Util
 import CnfgenModel.Cli.Validate
 import CnfgenModel.Cli.Chain
+import CnfgenModel.Cli.Phases
 namespace Cnfgen.Driver.Cli
 open Cnfgen Cnfgen.Driver Cnfgen.Cli
 
@@ -20,6 +21,11 @@ def handle (opname : String) (a : Args) : Option String :=
       let toks ← listOf str
       let (g, ts) := parseCommandLine toks
       pure (ok (fmtChunks (g :: ts)))) a
+  | "phase" => run (do
+      let s ← int; let has ← bool
+      let c : Cmd := { seed := if has then some s else none, parseDraws := 1, buildDraws := 1 }
+      let r := firstEvents current c
+      pure (ok (toString (if r.1 then 1 else 0) ++ " " ++ toString r.2))) a
   | _ => none
 
 end Cnfgen.Driver.Cli
